@@ -133,12 +133,27 @@ pub fn spaces(tier: &str) -> Vec<Box<dyn Space>> {
     v.push(fam_space(family_d(), na));
     // chained sequences over the full menu (including erroring packets), n <= 3 (thorough 4), 4 prior states
     let maxlen = if thorough { 4 } else { 3 };
-    let nl = crate::alphabet::list_count(17, maxlen);
-    let chains = family(&format!("chains<={}-over-17-packet-menu x 4 prior states", maxlen), nl * 4, move |i| {
-        let seq = crate::alphabet::list_at(17, maxlen, i % nl);
+    let nl = crate::alphabet::list_count(menu::TOTAL, maxlen);
+    let chains = family(&format!("chains<={}-over-19-packet-menu x 4 prior states", maxlen), nl * 4, move |i| {
+        let seq = crate::alphabet::list_at(menu::TOTAL, maxlen, i % nl);
         Case { prior: menu::prior_state((i / nl) as usize), input: menu::chain(&seq) }
     });
     v.push(fam_space(chains, 48));
+    // V5/V7 packets of every record count, alone / followed by another packet / followed by one stray byte
+    let top5 = if thorough { 1364 } else { 80 };
+    let counts = family(&format!("fixed-format packets with 0..={} records x {{alone, +V7x1, +1 stray byte}}", top5), (top5 as u64 + 1) * 2 * 3, move |i| {
+        let d = digits(i, &[top5 as u64 + 1, 2, 3]);
+        let ver = if d[1] == 0 { 5 } else { 7 };
+        let n = (d[0] as usize).min(if ver == 5 { 1364 } else { 1259 });
+        let mut b = crate::wire::fixed_distinct(ver, n, 5);
+        match d[2] {
+            1 => b.extend(crate::wire::fixed_distinct(7, 1, 9)),
+            2 => b.push(0x2a),
+            _ => {}
+        }
+        Case { prior: vec![], input: b }
+    });
+    v.push(fam_space(counts, 18));
     v
 }
 
@@ -148,7 +163,7 @@ pub fn run(tier: &str) -> i32 {
         prop: "C02".into(),
         tier: tier.into(),
         level: "model_checking",
-        rule: "every case of families A (grammar product), B (single-byte deviations x 256 values, truncations, structural deviations), D (tiny buffers) and all chains of <= 3 (thorough 4) packets over the 17-packet menu x 4 prior cache states, each under every allowed set of the stated menu; the oracle is computed from the input bytes and the returned list only (cursor walk with the wire length implied by each packet's own header). A case is distinct by (sequence of (version, implied length), input length)".into(),
+        rule: "every case of families A (grammar product), B (single-byte deviations x 256 values, truncations, structural deviations), D (tiny buffers) and all chains of <= 3 (thorough 4) packets over the 19-packet menu x 4 prior cache states, each under every allowed set of the stated menu; the oracle is computed from the input bytes and the returned list only (cursor walk with the wire length implied by each packet's own header). A case is distinct by (sequence of (version, implied length), input length)".into(),
         bounds: json!({"allowed_sets": if thorough {"all 16 subsets of {5,7,9,10} x {none,{6},{0,11,65535}} = 48"} else {"16 subsets + 2 widened (18); 48 for chains"}, "chain_len": if thorough {4} else {3}}),
         assumptions: vec!["cases on which parse_bytes panics are skipped here (tag) and reported by C01".into()],
         trusted_base: vec!["c02::decomposition_issues".into()],
